@@ -133,6 +133,17 @@ def collect():
             out.append((f.name, v.pattern, v.flags))
     # the default source-suffix pattern (C18)
     out.append(("SRC_EXT_DEFAULT", rp.create_src_file_exts_regex().pattern, rp.create_src_file_exts_regex().flags))
+    # the DEFAULT suffix expression on its own (a constant inside create_src_file_exts_regex)
+    with open(os.path.join(REPO, "fortls", "regex_patterns.py")) as fh:
+        rtree = ast.parse(fh.read())
+    body = None
+    for node in ast.walk(rtree):
+        if isinstance(node, ast.FunctionDef) and node.name == "create_src_file_exts_regex":
+            for st in ast.walk(node):
+                if (isinstance(st, ast.Assign) and isinstance(st.targets[0], ast.Name) and st.targets[0].id == "DEFAULT"
+                        and isinstance(st.value, ast.Constant) and isinstance(st.value.value, str)):
+                    body = st.value.value
+    out.append(("SRC_EXT_DEFAULT_BODY", body if body is not None else "(?<=unsupported)", 0))
     # inline constant patterns: re.compile("...", flags) anywhere in the package
     pk = os.path.join(REPO, "fortls")
     for root, _, files in os.walk(pk):
@@ -163,7 +174,7 @@ def collect():
 
 def render(pats):
     L = ["(* GENERATED by harness/translators/regex.py from fortls/regex_patterns.py (via re._parser) -- do not edit *)",
-         "From Coq Require Import String.", "From FV Require Import Base.Str Base.Regex.", "Open Scope N_scope."]
+         "From Coq Require Import String.", "From FV Require Import Base.Str Base.Regex.", "Local Open Scope N_scope."]
     names = []
     for name, pattern, flags in pats:
         body, ci = translate_pattern(pattern, flags)
